@@ -484,8 +484,9 @@ def with_line():
     src, first = inspect.getsourcelines(_S['threads'].KillableThread.run)
     import textwrap
     tree = ast.parse(textwrap.dedent(''.join(src)))
-    w = [n for n in ast.walk(tree) if isinstance(n, ast.With)][0]
-    _S['with_line'] = first + w.lineno - 1
+    withs = [n for n in ast.walk(tree) if isinstance(n, ast.With)]
+    # (no `with` block in run(): there is no lock-release window to excuse)
+    _S['with_line'] = first + withs[0].lineno - 1 if withs else None
   return _S['with_line']
 
 
